@@ -342,6 +342,37 @@ func hasObject(v any) bool {
 	return false
 }
 
+// hxLibTranslate: what the library's single rewriting rule does (`\u` + four UPPER-case hex digits → `\x{…}`, anywhere)
+var hxLibRule = regexp.MustCompile(`\\u([0-9A-F]{4})`)
+
+func hxLibTranslate(p string) string { return hxLibRule.ReplaceAllString(p, `\x{$1}`) }
+
+// hxEcmaTranslate: the ECMA-262 reading, token by token: a backslash escapes the next character (`\\` is one token),
+// `\uXXXX` with hex digits of either case is the code unit XXXX
+func hxEcmaTranslate(p string) string {
+	r := []rune(p)
+	var b strings.Builder
+	isHex := func(c rune) bool { return c >= '0' && c <= '9' || c >= 'a' && c <= 'f' || c >= 'A' && c <= 'F' }
+	for i := 0; i < len(r); {
+		if r[i] != '\\' {
+			b.WriteRune(r[i])
+			i++
+			continue
+		}
+		if i+5 < len(r) && r[i+1] == 'u' && isHex(r[i+2]) && isHex(r[i+3]) && isHex(r[i+4]) && isHex(r[i+5]) {
+			b.WriteString(`\x{` + string(r[i+2:i+6]) + `}`)
+			i += 6
+			continue
+		}
+		b.WriteRune(r[i])
+		if i+1 < len(r) {
+			b.WriteRune(r[i+1])
+		}
+		i += 2
+	}
+	return b.String()
+}
+
 var regexCache sync.Map
 
 // collectDefaultStrings: the strings inside every `default` of the schema tree
@@ -413,19 +444,32 @@ func withOracle(c hx.Case) hx.Case {
 		ps = append(ps, p)
 	}
 	sort.Strings(ps)
+	// the default engine: Go's regexp, asked about Go pattern TEXT. The translation of the schema's pattern into that
+	// text is part of the model (intoGo) and of the spec (ecmaToGo); the table has both candidate texts, computed here by
+	// two independent re-implementations — a text the Lean side derives and this table lacks reads as "does not compile"
+	goTexts := map[string]bool{}
 	for _, p := range ps {
+		goTexts[hxLibTranslate(p)] = true
+		goTexts[hxEcmaTranslate(p)] = true
+	}
+	gts := make([]string, 0, len(goTexts))
+	for g := range goTexts {
+		gts = append(gts, g)
+	}
+	sort.Strings(gts)
+	for _, g := range gts {
 		var re *regexp.Regexp
-		if r, ok := regexCache.Load(p); ok {
+		if r, ok := regexCache.Load(g); ok {
 			re, _ = r.(*regexp.Regexp)
 		} else {
-			re, _ = regexp.Compile(p)
-			regexCache.Store(p, re)
+			re, _ = regexp.Compile(g)
+			regexCache.Store(g, re)
 		}
 		for _, s := range ss {
 			if re == nil {
-				rx = append(rx, []any{p, s, nil})
+				rx = append(rx, []any{g, s, nil})
 			} else {
-				rx = append(rx, []any{p, s, re.MatchString(s)})
+				rx = append(rx, []any{g, s, re.MatchString(s)})
 			}
 		}
 	}
@@ -462,8 +506,12 @@ func withOracle(c hx.Case) hx.Case {
 			}
 		}
 	}
-	if rx != nil {
-		c["regex"] = rx
+	delete(c, "regex")
+	if len(ps) > 0 {
+		if rx == nil {
+			rx = []any{}
+		}
+		c["gorx"] = rx
 	}
 	if fm != nil {
 		c["formats"] = fm
@@ -491,7 +539,9 @@ var c01Atoms = []kwAtom{
 	{"minimum", 2147483647}, {"maximum", -1}, {"minLength", 0}, {"maxLength", 0}, {"maxItems", 0}, {"required", []any{"a", "b"}}, {"maxProperties", 0},
 	{"readOnly", true}, {"writeOnly", true},
 	// non-ASCII text in every place a string of the schema meets a string of the value; `default` as an own keyword (no effect on validation)
-	{"pattern", "^é"}, {"pattern", "^.{2}$"}, {"enum", []any{"é", "😀"}}, {"required", []any{"é"}}, {"minLength", 3}, {"maxLength", 4}, {"default", "d"},
+	{"pattern", "^é"}, {"pattern", "^.{2}$"},
+	// escapes: the intended use of the translation, its two blind spots (lower-case hex, an escaped backslash before u), and escapes it leaves alone
+	{"pattern", `^\u00E9`}, {"pattern", `^\u00e9`}, {"pattern", `^\\u00E9`}, {"pattern", `^\x41\u0062`}, {"enum", []any{"é", "😀"}}, {"required", []any{"é"}}, {"minLength", 3}, {"maxLength", 4}, {"default", "d"},
 }
 
 var c01TopAtoms = []kwAtom{
